@@ -76,8 +76,46 @@ fn hash_tag(s: &str) -> f64 {
 fn rhs<T: RealNumber>(c: &mut Case, m: usize, scale: f64) -> Mat {
     let k = c.rng.us(1, 4);
     let s = if c.rng.bool(0.5) { scale } else { 1.0 };
-    let b = Mat::randn(&mut c.rng, m, k).scale(s);
-    c.bucket(&format!("rhs-cols:{}", k));
+    let mut b = Mat::randn(&mut c.rng, m, k).scale(s);
+    // structured right-hand sides: exact zeros at the head / tail of a column, unit vectors, the identity, a zero column
+    let kind = match c.rng.below(10) {
+        0 => {
+            b = Mat::eye(m).scale(s);
+            "identity"
+        }
+        1 => {
+            b = Mat::from_fn(m, k, |_, _| 0.0);
+            for j in 0..k {
+                let i = c.rng.below(m);
+                b.set(i, j, s * if c.rng.bool(0.5) { 1.0 } else { -1.0 });
+            }
+            "unit-vectors"
+        }
+        2 | 3 => {
+            // every column keeps a random contiguous stretch, the rest is exactly zero
+            for j in 0..k {
+                let lo = c.rng.below(m);
+                let hi = c.rng.us(lo, m - 1);
+                for i in 0..m {
+                    if i < lo || i > hi {
+                        b.set(i, j, 0.0);
+                    }
+                }
+            }
+            "zero-head-and-tail"
+        }
+        4 => {
+            let j = c.rng.below(k);
+            for i in 0..m {
+                b.set(i, j, 0.0);
+            }
+            "one-zero-column"
+        }
+        _ => "dense",
+    };
+    let k = b.c;
+    c.bucket(&format!("rhs:{}", kind));
+    c.bucket(&format!("rhs-cols:{}", if k <= 4 { k.to_string() } else { ">4".to_string() }));
     if width::<T>() == "f32" {
         b.round_f32()
     } else {
